@@ -7,6 +7,7 @@ package verifsim
 
 import (
 	"fmt"
+	"net/http"
 	"strings"
 	"time"
 )
@@ -204,6 +205,25 @@ func (propC04) Check(r *Run) []Violation {
 		at   time.Duration
 	}
 	failsSinceSuccess := map[string]int{}
+	// "no trace of the failure": the names of the response headers of a request that was served without any
+	// failure on the way are the reference for what a served response looks like in this run
+	cleanNames := map[string]bool{}
+	for _, c := range r.Results {
+		exs := r.ExchangesFor(c.Nonce)
+		if c.Status >= 200 && c.Status < 300 && len(exs) == 1 && exs[0].FaultFired == "" && exs[0].Completed {
+			dialTrouble := false
+			for _, d := range dials {
+				if d.Role == "olla" && d.At >= c.StartAt && d.At <= c.DoneAt && d.Outcome != "ok" {
+					dialTrouble = true
+				}
+			}
+			if !dialTrouble && failsSinceSuccessZero(r, c) {
+				for name := range c.Header {
+					cleanNames[name] = true
+				}
+			}
+		}
+	}
 	// process ops in start order (they are sequential by construction)
 	for _, c := range r.Results {
 		op := r.Op(c.OpID)
@@ -277,6 +297,21 @@ func (propC04) Check(r *Run) []Violation {
 			for _, e := range exs {
 				if exchangeID(e) == c.Header.Get("X-Backend-Exchange") {
 					A = e
+				}
+			}
+			if A != nil && len(cleanNames) > 0 {
+				own := map[string]bool{}
+				for _, h := range A.RespHeaders {
+					own[http.CanonicalHeaderKey(h[0])] = true
+				}
+				for name := range c.Header {
+					switch name {
+					case "Content-Length", "Transfer-Encoding", "Date", "Content-Type", "Connection":
+						continue // framing
+					}
+					if !cleanNames[name] && !own[name] {
+						add("C04/failover-left-a-trace/header="+name, "op %d: served by %s after attempts %v, but the response carries %s: %q, which no response served without a failure in this run has", c.OpID, A.Backend, atts, name, c.Header.Get(name))
+					}
 				}
 			}
 			if A != nil && A.Completed && (c.BodyErr != "" || len(c.Body) != len(A.BodyWrote)) {
@@ -354,4 +389,20 @@ func (propC04) Check(r *Run) []Violation {
 		}
 	}
 	return out
+}
+
+// failsSinceSuccessZero: no endpoint has any failure on record before this request started (so no
+// breaker can have been involved in serving it).
+func failsSinceSuccessZero(r *Run, c *ClientResult) bool {
+	for _, e := range r.Exchanges {
+		if e.Kind == "proxy" && e.ArrivedAt < c.StartAt && (e.FaultFired != "" || !e.HeadersSent) {
+			return false
+		}
+	}
+	for _, d := range r.Sim.Dials() {
+		if d.Role == "olla" && d.At < c.StartAt && d.Outcome != "ok" {
+			return false
+		}
+	}
+	return true
 }
